@@ -328,6 +328,40 @@ fn seek(&mut self, pos: SeekFrom) -> (r: Result<u64, IoError>)
             }
         }
     }
+
+// `Seek::stream_position` / `Seek::rewind` OVERRIDES.  FileView has none today (std's provided methods are, by
+// definition, `self.seek(SeekFrom::Current(0))` and `self.seek(SeekFrom::Start(0)).map(|_| ())`): the blocks are
+// `//@optional` -- skipped on the pinned tree -- and put an override that an edit adds under the contract the Seek
+// trait documents for it: the position RELATIVE TO THE VIEW START, i.e. what `seek(SeekFrom::Current(0))` returns,
+// and nothing moves.  Measure 2: above `seek`'s (0/1), so the override may call `seek` but not the other way round.
+
+// `Tell::tell` (utils/file/tell.rs, `impl<S: Seek> Tell for S`), instantiated at S = FileView: the position of the
+// isolated range, nothing moves.  R11: a call `self.stream_position()` is read as `self.seek(SeekFrom::Current(0))`
+// -- that IS std's provided method, and an override in `impl Seek for FileView` is held to exactly that by the
+// block above (assume/guarantee: if the override differs, `stream_position/...` fails there).
+fn tell(&mut self) -> (r: Result<u64, IoError>)
+    requires
+        
+        old(self).wf(),
+        
+        old(self).cursor_known(),
+    ensures
+        
+        final(self).wf(),
+        
+        final(self).same_window(old(self)),
+        
+        r matches Ok(v) ==> v == old(self).vpos(),
+        
+        r is Ok ==> final(self).cursor_known() && final(self).vpos() == old(self).vpos(),
+        
+        r is Err ==> !final(self).cursor_known(),
+    decreases
+        
+        3int,
+{
+        self.seek(SeekFrom::Current(0))
+    }
 }
 
 } // verus!
